@@ -71,6 +71,15 @@ func guard(f func()) (msg string) {
 // exact returns a copy of b whose capacity equals its length, so that any read
 // past the end of the record is an out-of-range slice instead of a silent read
 // of neighbouring memory.
+// scribble overwrites a buffer a decoder was given: what was decoded from it
+// belongs to the caller and must not change (in the node the buffer is a database
+// value that is only valid inside the transaction)
+func scribble(b []byte) {
+	for i := range b {
+		b[i] ^= 0xa5
+	}
+}
+
 func exact(b []byte) []byte {
 	out := make([]byte, len(b))
 	copy(out, b)
@@ -219,7 +228,9 @@ func checkScript(s []byte) string {
 	if got := blockchain.VerifDecodeCompressedScriptSize(ext); got != len(want) {
 		return fmt.Sprintf("decodeCompressedScriptSize(%x followed by ff0080)=%d, want %d", trunc(want), got, len(want))
 	}
-	back := blockchain.VerifDecompressScript(exact(want))
+	src := exact(want)
+	back := blockchain.VerifDecompressScript(src)
+	scribble(src)
 	if !bytes.Equal(back, s) {
 		return fmt.Sprintf("decompressScript(%x)=%x, original script %x", trunc(want), trunc(back), trunc(s))
 	}
@@ -295,7 +306,9 @@ func checkUtxo(e ref.Entry, spent bool) string {
 	if sz := blockchain.VerifCompressedTxOutSize(uint64(e.Amount), e.Script); sz != len(ref.TxOut(uint64(e.Amount), e.Script)) {
 		return fmt.Sprintf("compressedTxOutSize=%d, format length %d", sz, len(ref.TxOut(uint64(e.Amount), e.Script)))
 	}
-	dec, ok, err := blockchain.VerifDeserializeUtxoEntry(exact(want))
+	src := exact(want)
+	dec, ok, err := blockchain.VerifDeserializeUtxoEntry(src)
+	scribble(src)
 	if err != nil || !ok {
 		return fmt.Sprintf("deserializeUtxoEntry(%x) failed: %v", trunc(want), err)
 	}
@@ -328,7 +341,9 @@ func checkStxo(e ref.Entry) string {
 		return fmt.Sprintf("putSpentTxOut wrote %d bytes %x, format is %x", w, trunc(buf), trunc(want))
 	}
 	var got blockchain.SpentTxOut
-	n, err := blockchain.VerifDecodeSpentTxOut(exact(want), &got)
+	src := exact(want)
+	n, err := blockchain.VerifDecodeSpentTxOut(src, &got)
+	scribble(src)
 	if err != nil || n != len(want) {
 		return fmt.Sprintf("decodeSpentTxOut(%x)=(%d,%v), want (%d,nil)", trunc(want), n, err, len(want))
 	}
@@ -411,7 +426,9 @@ func checkJournal(shape []int, es []ref.Entry) string {
 	if !bytes.Equal(got, want) {
 		return fmt.Sprintf("serializeSpendJournalEntry=%x, format is %x", trunc(got), trunc(want))
 	}
-	dec, err := blockchain.VerifDeserializeSpendJournalEntry(exact(want), txnsOf(shape))
+	src := exact(want)
+	dec, err := blockchain.VerifDeserializeSpendJournalEntry(src, txnsOf(shape))
+	scribble(src)
 	if err != nil {
 		return fmt.Sprintf("deserializeSpendJournalEntry(%x, shape %v) failed: %v", trunc(want), shape, err)
 	}
